@@ -76,10 +76,30 @@ def run_flow(c):
     except Exception as e:
         return {"config_error": err(e) + ": " + str(e)[:300]}
     data = training_data(c)
-    if c["state"] in ("trained", "reset"):
-        fm.train(data, plot=False)
-    if c["state"] == "reset":
-        fm.reset_model(weights=True, permutations=c.get("reset_permutations", False))
+    ops = c.get("ops")
+    if ops is None:
+        ops = {"fresh": [], "trained": ["train"]}.get(c["state"], ["train", "reset_wp" if c.get("reset_permutations") else "reset_w"])
+    # a history of public FlowModel calls before the flow is probed: the state of a flow (weights, caches of the linear
+    # transforms, batch-norm statistics, train/eval mode) depends on the whole sequence, not only on the last call
+    for op in ops:
+        if op == "train":
+            fm.train(data, plot=False)
+        elif op == "fwd":
+            fm.forward_and_log_prob(data[:50])
+        elif op == "logp":
+            fm.log_prob(data[:50])
+        elif op == "inv":
+            fm.sample_and_log_prob(N=50)
+        elif op == "inv_z":
+            fm.sample_and_log_prob(z=np.random.randn(50, c["dims"]))
+        elif op == "reset_w":
+            fm.reset_model(weights=True, permutations=False)
+        elif op == "reset_p":
+            fm.reset_model(weights=False, permutations=True)
+        elif op == "reset_wp":
+            fm.reset_model(weights=True, permutations=True)
+        else:
+            raise ValueError(op)
     model = fm.model
     model.eval()
     n = c.get("n_points", 6)
@@ -204,6 +224,19 @@ def run_flow(c):
     x_fm, lp_fm = fm.sample_and_log_prob(N=n)
     direct("FlowModel.sample_and_log_prob(N) agrees with the torch model",
            np.array_equal(x_fm, xs2.numpy().astype(np.float64)) and np.array_equal(lp_fm, lps2.numpy().astype(np.float64)), "")
+    # ---- array level on batches of very different sizes: one call = the same points evaluated in small chunks ----------
+    nb = c.get("n_big")
+    if nb:
+        rsb = np.random.RandomState(c["seed"] + 5)
+        xb = data[rsb.randint(0, len(data), nb)] + 0.05 * rsb.randn(nb, c["dims"])
+        whole = fm.log_prob(xb)
+        parts = np.concatenate([fm.log_prob(xb[i:i + 997]) for i in range(0, nb, 997)])
+        okf = np.isfinite(parts)
+        eb = float(np.abs(whole[okf] - parts[okf]).max()) if okf.any() else 0.0
+        direct(f"FlowModel.log_prob on one batch of {nb} points equals the same points evaluated in chunks",
+               whole.shape == parts.shape and np.array_equal(np.isfinite(whole), okf)
+               and eb <= tol_lp * (1 + float(np.abs(parts[okf]).max() if okf.any() else 0.0)),
+               f"max difference {eb:.3g}; last rows {whole[-2:]} vs {parts[-2:]}")
     # ---- thorough: integrates to one in 2-d (numeric validation only) --------------------------------------------------
     if c.get("integrate") and c["dims"] == 2:
         g = np.linspace(-12, 14, 521)
@@ -381,6 +414,31 @@ def run_ins(c):
     eu = float(np.abs(upd[:, -1] - lq3[:, -1]).max())
     direct("update_log_q and compute_log_Q attach the same density (flow density times rescaling Jacobian) to the same points",
            eu <= 1e-9 * (1 + float(np.abs(lq3[:, -1]).max())), f"max difference {eu:.3g}; max |log_j| {float(np.abs(lj).max()):.3g}")
+    # ---- the same on batches of very different sizes (the sampler updates ALL its samples after each new flow) --------
+    for nb in c.get("n_bigs", []):
+        big = model.sample_unit_hypercube(nb)
+        with np.errstate(all="ignore"):
+            xbp, ljb_ = p.rescale(big)
+            _, lqb = p.compute_log_Q(xbp, log_j=ljb_)
+            updb = p.update_log_q(big, lqb[:, :-1])
+            lpall = p.flow.log_prob_all(xbp)
+        ebig = float(np.abs(updb[:, -1] - lqb[:, -1]).max())
+        worst = int(np.argmax(np.abs(updb[:, -1] - lqb[:, -1])))
+        direct("update_log_q and compute_log_Q attach the same density (flow density times rescaling Jacobian) to the same points",
+               ebig <= tol_lp * (1 + float(np.abs(lqb[:, -1]).max())),
+               f"batch of {nb} samples: max difference {ebig:.3g} at row {worst}")
+        for i in range(lpall.shape[1]):
+            one = p.flow.log_prob_ith(xbp, i)
+            ei = float(np.abs(one - lpall[:, i]).max())
+            direct("log_prob_ith agrees with the column of log_prob_all for the same samples",
+                   one.shape == lpall[:, i].shape and ei <= tol_lp * (1 + float(np.abs(lpall[:, i]).max())),
+                   f"batch of {nb} samples, flow {i}: max difference {ei:.3g} at row {int(np.argmax(np.abs(one - lpall[:, i])))}")
+        lpl = p.flow.log_prob_ith(xbp, p.level_count)
+        for j in sorted({0, 1, nb // 2, nb - 2, nb - 1} & set(range(nb))):
+            out["glue"].append(["KInsRow", "F64", fx(lpl[j]), fx(ljb_[j]), fx(updb[j, -1]), "ImportanceFlowProposal.update_log_q"])
+            for i in range(lpall.shape[1]):
+                out["glue"].append(["KInsRow", "F64", fx(lpall[j, i]), fx(ljb_[j]), fx(lqb[j, i + 1]),
+                                    "ImportanceFlowProposal.compute_log_Q"])
     # rescaling round trip (the certified-map hypothesis of C08_ins_consistent, validated numerically)
     xb, ljb = p.inverse_rescale(xpr.copy())
     er = max(float(np.abs(xb[nm] - samples[nm]).max()) for nm in model.names)
